@@ -90,14 +90,14 @@ def check(case, ctx):
     ci = mod.cell_invert(cell)
     ctx.near("cell_invert", _cell_diff(ci, rc), TOL, "cell_invert", "%s: cell_invert %r != %r" % (m, list(ci), rc))
     cii = mod.cell_invert(ci)
-    ctx.near("cell_invert^2", _cell_diff(cii, cell), 1e-8, "cell_invert-involution", "%s: cell_invert(cell_invert) %r != %r" % (m, list(cii), cell))
+    ctx.near("cell_invert^2", _cell_diff(cii, cell), 1e-10, "cell_invert-involution", "%s: cell_invert(cell_invert) %r != %r" % (m, list(cii), cell))
     # inverse maps
     A_ro, B_ro = O.ro(A), O.ro(B)          # the inverse maps must not modify the matrices they are given
-    ctx.near("a_to_cell", _cell_diff(mod.a_to_cell(A_ro), cell), 1e-8, "a_to_cell", "%s: a_to_cell(A) %r != %r" % (m, list(mod.a_to_cell(A)), cell))
-    ctx.near("b_to_cell", _cell_diff(mod.b_to_cell(B_ro), cell), 1e-8, "b_to_cell", "%s: b_to_cell(B) %r != %r" % (m, list(mod.b_to_cell(B_ro)), cell))
+    ctx.near("a_to_cell", _cell_diff(mod.a_to_cell(A_ro), cell), 1e-10, "a_to_cell", "%s: a_to_cell(A) %r != %r" % (m, list(mod.a_to_cell(A)), cell))
+    ctx.near("b_to_cell", _cell_diff(mod.b_to_cell(B_ro), cell), 1e-10, "b_to_cell", "%s: b_to_cell(B) %r != %r" % (m, list(mod.b_to_cell(B_ro)), cell))
     Ai = np.asarray(mod.form_a_mat_inv(cell), float)
     # A^-1 A = I, scaled so that axial ratios do not matter: (Ai A) is dimensionless
-    ctx.near("Ainv.A=I", O.maxabs(Ai @ A - np.eye(3)), 1e-8, "form_a_mat_inv", "%s: A^-1.A != I" % m)
+    ctx.near("Ainv.A=I", O.maxabs(Ai @ A - np.eye(3)), 1e-10, "form_a_mat_inv", "%s: A^-1.A != I" % m)
     if [float(x) for x in cell] != cell_values:
         ctx.fail("argument-mutated", "%s: a function changed the caller's cell object to %r" % (m, list(cell)))
 
